@@ -47,6 +47,10 @@ def stepLine (s : State) : List String → State × String
   | ["restore"] => let s' := restore s; (s', showState s')
   | ["addEdge"] => let s' := addEdge s; (s', showState s')
   | ["removeEdge"] => let s' := removeEdge s; (s', showState s')
+  -- a second changer on a core the first one expanded: its convert returns at once (already full), its restore has
+  -- nothing to undo (`_newAssembliesAdded` empty): both leave the state as it is
+  | ["convert2"] => if s.full then (s, showState s) else (s, "bad-op")
+  | ["restore2"] => if s.full then (s, showState s) else (s, "bad-op")
   | ["solveScale"] =>
     if s.full then (s, "bad-op") else let s' := scaleSym (solveHalves s); (s', showState s')
   | ["geo", k] => match parseNat? k with
